@@ -110,7 +110,8 @@ func GenShimCase(t *rapid.T, pr ShimProfile) ShimCase {
 	if pr.Faults {
 		kinds = append(kinds, "plan", "plan")
 	}
-	passes := []string{"", "pw", "correct horse", strings.Repeat("x", 300), "pw "}
+	// passphrases incl. near misses of each other (trailing blank / newline / NUL, leading blank, other case)
+	passes := []string{"", "pw", "correct horse", strings.Repeat("x", 300), "pw ", "pw\n", "pw\r\n", "pw\x00", " pw", "PW", "\n", "p"}
 	maxOps := pr.MaxOps
 	if maxOps == 0 {
 		maxOps = 30
